@@ -97,9 +97,6 @@ class C19(Check):
                   suppress_health_check=list(HealthCheck), report_multiple_bugs=False)
         @given(grammars(), st.lists(st.integers(0, 62), min_size=NBITS, max_size=NBITS), st.data())
         def prop(gk, bits, data):
-            if runner.time_left() < 0:
-                res.truncated = True
-                return
             g, kind = gk
             if kind == 'single' and g.rules[0][3][0] in ('lit', 'rx', 'ref'):
                 return
@@ -109,6 +106,10 @@ class C19(Check):
                 g = peg.G(rules)
                 if any(x[0] == 'ref' for x in peg.walk(rules[0][3])):
                     g = peg.G(list(gens_rich.BASE_RULES) + rules)
+            alpha = 'ab12' if kind == 'rich' else ('ab ,' if kind in ('group', 'single') else 'ab Z')
+            drawn = data.draw(st.lists(st.text(alphabet=alpha, min_size=5, max_size=9), min_size=20, max_size=20))
+            if runner.over_budget(res):
+                return
             res.hist['kind_' + kind] += 1
             a = peg.render(g)
             b = peg.render2(g, bits)
@@ -119,10 +120,8 @@ class C19(Check):
                 res.mismatch({'g': peg.g_to_dict(g), 'bits': bits, 'entry': g.start_name(), 'text': ''})
                 return
             bare = not hasattr(mb, 'start') or len(g.rules) == 1
-            alpha = 'ab12' if kind == 'rich' else ('ab ,' if kind in ('group', 'single') else 'ab Z')
             inputs = gens.all_inputs(alpha, 4, g.mode)[::1 if kind != 'rich' else 2]
-            inputs += [t.encode('latin-1') if g.mode == 'bytes' else t for t in
-                       data.draw(st.lists(st.text(alphabet=alpha, min_size=5, max_size=9), min_size=20, max_size=20))]
+            inputs += [t.encode('latin-1') if g.mode == 'bytes' else t for t in drawn]
             entries = [None] + [e for e in gens_rich.entry_points(g) if e[0] in 'RKXFs'][:6]
             dims = dimensions(a, b)
             for name in entries:
@@ -156,7 +155,10 @@ class C19(Check):
                         break
                 if stop:
                     break
-        prop()
+        try:
+            prop()
+        except runner.StopTask:
+            pass
         return res
 
     def replay(self, case):
